@@ -36,10 +36,17 @@ class HiddenNumberParams:
   return_hints = [
       ("C09", "let N = self.n"), ("C09", "let m1 = idiv(s * k - z - r * d, N)"), ("C09", "divmod_def(s * k - z - r * d, N)"),
       ("C09", "let k0 = idiv(s * si - 1, N)"), ("C09", "divmod_def(s * si - 1, N)"),
-      ("C09", "s * si - 1 == N * k0"),
       ("C09", "let q1 = idiv(z * si, N)"), ("C09", "let q2 = idiv(r * si, N)"),
       ("C09", "divmod_def(z * si, N)"), ("C09", "divmod_def(r * si, N)"),
-      ("C09", "result[0] + result[1] * d - k == N * (k * k0 - si * m1 - q1 - q2 * d)"),
+      ("C09", "s * si - 1 == N * k0"), ("C09", "s * k - z - r * d == N * m1"),
+      ("C09", "result[0] == z * si - N * q1"), ("C09", "result[1] == r * si - N * q2"),
+      ("C09", "by(z == s * k - r * d - N * m1, s * k - z - r * d == N * m1)"),
+      ("C09", "by(z * si == (s * si) * k - (r * si) * d - N * (m1 * si), z == s * k - r * d - N * m1)"),
+      ("C09", "by(z * si == k + N * (k0 * k) - (r * si) * d - N * (m1 * si), "
+              "z * si == (s * si) * k - (r * si) * d - N * (m1 * si), s * si - 1 == N * k0)"),
+      ("C09", "by(result[0] + result[1] * d - k == N * (k * k0 - si * m1 - q1 - q2 * d), "
+              "z * si == k + N * (k0 * k) - (r * si) * d - N * (m1 * si), "
+              "result[0] == z * si - N * q1, result[1] == r * si - N * q2)"),
       ("C09", "euclid(result[0] + result[1] * d - k, N, 0, k * k0 - si * m1 - q1 - q2 * d)"),
   ]
   total = True
@@ -77,7 +84,11 @@ class Multiply:
   requires = ["wf_point(p)"]
   ensures = ["wf_point(result)",
              "is_inf(result) == ufb('ec_mul_is_inf', self.a, self.b, self.mod, p[0] is None, p[0], p[1], n)",
-             "implies(is_inf(p), is_inf(result))"]
+             "implies(is_inf(p), is_inf(result))",
+             # logarithm view (decided under C11): n * P has logarithm n * dlog(P) and stays in the subgroup
+             "implies(not is_inf(p) and in_group(self, p[0], p[1]) and not is_inf(result), "
+             "in_group(self, result[0], result[1]) and (dlog(self, result[0], result[1]) - n * dlog(self, p[0], p[1])) % self.n == 0)",
+             "implies(not is_inf(p) and in_group(self, p[0], p[1]), is_inf(result) == ((n * dlog(self, p[0], p[1])) % self.n == 0))"]
 
 
 @contract(f"{E}::EcCurve.IsValidPublicKey")
@@ -129,17 +140,38 @@ class EcCurveFields:
   assumed = True
 
 # abstract group view used by the discrete-log contracts: is_dlog(curve, d, P)  <=>  d * G == P on that curve
-macro("is_dlog", ["c", "d", "px", "py"], "ufb('is_dlog', c.a, c.b, c.mod, c.g[0], c.g[1], d, px, py)")
+# logarithm view of the cyclic group <G>: every point P of the subgroup has a unique log dlog(P) in [0, n);
+# d is a discrete log of P  <=>  d == dlog(P) (mod n).  in_group(P): P is a non-infinity point of <G>.
+macro("dlog", ["c", "px", "py"], "ufi('dlog', c.a, c.b, c.mod, c.g[0], c.g[1], c.n, px, py)")
+macro("in_group", ["c", "px", "py"], "ufb('in_group', c.a, c.b, c.mod, c.g[0], c.g[1], c.n, px, py)")
+macro("is_dlog", ["c", "d", "px", "py"], "(d - dlog(c, px, py)) % c.n == 0")
+
+
+@contract(f"{E}::EcCurve.BatchDL")
+class BatchDL:
+  params = {"points": "list[point]", "n": "int"}
+  self_fields = CURVE_FIELDS
+  returns = "list[Optional[int]]"
+  assumed = True
+  assumed_why = ("baby-step/giant-step search: completeness and soundness decided by the bounded tier (bounded/c10.py, "
+                 "exhaustive on small prime-order curves); arithmetic under C11")
+  ensures = ["len(result) == len(points)",
+             "forall(k, 0, len(result), result[k] is None or points[k][0] is None or "
+             "implies(in_group(self, points[k][0], points[k][1]), is_dlog(self, result[k], points[k][0], points[k][1])))"]
 
 
 @contract(f"{E}::EcCurve.ExtendedBatchDL")
 class ExtendedBatchDL:
+  """Soundness over the logarithm view (d * m == x (mod n) when d == inv(m) * x) was attempted deductively; the
+  flat-index invariant over all_points (m // num_points, m % num_points, products of uninterpreted logs) is not
+  discharged by z3/cvc5 within budget, so the contract is ASSUMED here and decided by the bounded tier
+  (bounded/c02.py ec_key_checks_sound incl. negatives of structured keys, bounded/c10.py)."""
   params = {"points": "list[tuple[int,int]]"}
   self_fields = CURVE_FIELDS
   returns = "list[Optional[int]]"
   assumed = True
-  assumed_why = ("baby-step/giant-step over the abstract group: search logic under C10/C02 (BatchDL contract), "
-                 "arithmetic under C11; bounded tier bounded/c10.py")
+  assumed_why = ("multiplier/inverse bookkeeping over a flat index: invariant not discharged within budget; bounded tier "
+                 "bounded/c02.py, bounded/c10.py")
   ensures = ["len(result) == len(points)",
              "forall(k, 0, len(result), result[k] is None or is_dlog(self, result[k], points[k][0], points[k][1]))"]
 
